@@ -17,13 +17,11 @@ genes) is counted, not a violation; any other exception is a recorded deviation.
 """
 from __future__ import annotations
 
-import functools
 import itertools
 import logging
 import os
 import re
 import shutil
-import sys
 import tempfile
 import types
 import zlib
@@ -996,14 +994,14 @@ def run(ctx):
         exhaustive_dictionary(ctx)
         unique_id_contract_cases(ctx, ctx.quota(300, 20000))
         rng = ctx.rng("genes")
-        for _ in ctx.cases(ctx.quota(1500, 320000)):
+        for _ in ctx.cases(ctx.quota(1500, 240000)):
             case = gen_gene_case(rng)
             ctx.guard("harness-or-crash", case, run_gene_case, ctx, case)
         rng = ctx.rng("gff")
-        for _ in ctx.cases(ctx.quota(300, 48000)):
+        for _ in ctx.cases(ctx.quota(300, 40000)):
             case = gen_gff_case(rng)
             ctx.guard("harness-or-crash", case, run_gff_case, ctx, case)
-        random_lists(ctx, ctx.quota(1500, 200000), pool_every=40 if ctx.tier == "quick" else 150)
+        random_lists(ctx, ctx.quota(1500, 160000), pool_every=40 if ctx.tier == "quick" else 150)
         ctx.extra["forbidden_record_chars_swept"] = len(RECORD_FORBIDDEN)
         ctx.extra["forbidden_gene_chars_swept"] = len(GENE_FORBIDDEN)
         ctx.extra["dictionary"] = list(DICTIONARY)
